@@ -681,6 +681,32 @@ const LEN_EXTRA: [u32; 29] = [0, 0, 0, 0, 0, 0, 0, 0, 1, 1, 1, 1, 2, 2, 2, 2, 3,
 const DIST_BASE: [u32; 30] = [1, 2, 3, 4, 5, 7, 9, 13, 17, 25, 33, 49, 65, 97, 129, 193, 257, 385, 513, 769, 1025, 1537, 2049, 3073, 4097, 6145, 8193, 12289, 16385, 24577];
 const DIST_EXTRA: [u32; 30] = [0, 0, 0, 0, 1, 1, 2, 2, 3, 3, 4, 4, 5, 5, 6, 6, 7, 7, 8, 8, 9, 9, 10, 10, 11, 11, 12, 12, 13, 13];
 
+/// An INVALID zlib stream (one fixed-Huffman block) that announces `total` bytes: the literal `first`, then matches at distance
+/// `dist` although only one byte has been produced - a back-reference reaching before the start of the stream.  Every conforming
+/// inflater refuses it; an inflater that is handed stale history (the previous frame's bytes) "decodes" it.
+pub fn fixed_huffman_zlib_reach_back(first: u8, total: usize, dist: usize) -> Vec<u8> {
+    let mut w = BitWriter { out: vec![0x78, 0x01], acc: 0, n: 0 };
+    w.bits(1, 1);
+    w.bits(1, 2);
+    w.litlen(first as u32);
+    let mut left = total.saturating_sub(1);
+    while left > 0 {
+        let l = if left >= 258 { 258 } else if left >= 3 { left.min(257) } else { 3 };
+        let li = (0..29).rev().find(|&k| LEN_BASE[k] as usize <= l).unwrap();
+        let li = if l == 258 { 28 } else if li == 28 { 27 } else { li };
+        w.litlen(257 + li as u32);
+        w.bits(l as u32 - LEN_BASE[li], LEN_EXTRA[li]);
+        let di = (0..30).rev().find(|&k| DIST_BASE[k] as usize <= dist).unwrap();
+        w.code(di as u32, 5);
+        w.bits(dist as u32 - DIST_BASE[di], DIST_EXTRA[di]);
+        left = left.saturating_sub(l);
+    }
+    w.litlen(256);
+    let mut out = w.finish();
+    out.extend_from_slice(&[0, 0, 0, 1]);
+    out
+}
+
 /// zlib stream, one fixed-Huffman block: literals where no match at distance `dist` exists, otherwise matches of
 /// up to `max_len` bytes at exactly that distance (1 <= dist <= 32768)
 pub fn fixed_huffman_zlib(data: &[u8], dist: usize, max_len: usize) -> Vec<u8> {
